@@ -749,6 +749,12 @@ func runC12(c *Ctx) {
 			// phase itself is the workload
 			cs.Channels, cs.Rounds, cs.FastAck = 16, 1, true
 		}
+		if i%12 == 4 {
+			// long-lived channels: enough packets per channel for the
+			// one-byte packet number to wrap (consecutive mod 256)
+			cs.Channels, cs.Rounds, cs.PacketSize, cs.Inject = 2, 170, 0, 0
+			r.Count("long_lived_channel_storms", 1)
+		}
 		if i < 2 {
 			r.Sample("repetition", cs)
 		}
